@@ -366,8 +366,8 @@ def join_two_vertices(vertices_to_join, vertices, edges, cells, mapper={}):
     except KeyError:
         v1 = vertices[mapper[vertices_to_join[1]]]
     
-    x_cm = abs(v0.x + v1.x) / 2
-    y_cm = abs(v0.y + v1.y) / 2
+    x_cm = (v0.x + v1.x) / 2
+    y_cm = (v0.y + v1.y) / 2
 
     # find the common edge
     common_edge = list(set(v0.ownEdges) & set(v1.ownEdges))[0]
